@@ -30,6 +30,23 @@ func registerTimeNatives(in *Interp) {
 		} else if in.clockWindow != nil {
 			in.addConstraint(tb.SLe(t, tb.Add(in.firstNow, in.clockWindow)))
 		}
+		// the reading's whole seconds: a second fresh symbol, monotone like the
+		// instants and (under a clock window) within the window of the first
+		sec := in.fresh("now_unix", BV(64))
+		in.addConstraint(tb.And(tb.SLe(tb.Int(1<<20), sec), tb.SLe(sec, tb.Int(1<<40))))
+		if in.lastSec != nil {
+			in.addConstraint(tb.SLe(in.lastSec, sec))
+		}
+		if in.firstSec == nil {
+			in.firstSec = sec
+		} else if in.clockWindow != nil && in.clockWindow.IsConst() {
+			in.addConstraint(tb.SLe(sec, tb.Add(in.firstSec, tb.Int(in.clockWindow.SVal()/1000000000+1))))
+		}
+		in.lastSec = sec
+		if in.unixOf == nil {
+			in.unixOf = map[*Term]*Term{}
+		}
+		in.unixOf[t] = sec
 		in.lastNow = t
 		in.noteAssumption("time.Now returns successive non-decreasing instants in [2^50, 2^61] ns; no overflow of instant arithmetic")
 		return in.timeVal(t)
@@ -60,6 +77,15 @@ func registerTimeNatives(in *Interp) {
 		e := timeExt(args[0])
 		if e.IsConst() {
 			return tb.Int(e.SVal() / 1000000000)
+		}
+		if s, ok := in.unixOf[e]; ok {
+			return s
+		}
+		// clock reading plus a constant number of whole seconds
+		if e.Op == OAdd && e.A[1].IsConst() && e.A[1].SVal()%1000000000 == 0 {
+			if s, ok := in.unixOf[e.A[0]]; ok {
+				return tb.Add(s, tb.Int(e.A[1].SVal()/1000000000))
+			}
 		}
 		in.noteAssumption("Time.Unix is an uninterpreted function of the instant")
 		return tb.UF("unix_seconds", BV(64), e)
